@@ -345,6 +345,12 @@ func zmTable(p *core.Program, r *core.Report, rule string) {
 			return
 		}
 		prs, st := zmPairs(p, pk, d)
+		if len(prs) == 0 {
+			// the same fold with the source ordinate read into a local first (invisible in SSA)
+			if f := p.SSA.FuncValue(obj); f != nil {
+				prs, st = zmPairsSSA(f)
+			}
+		}
 		if len(prs) > 0 && fd == nil {
 			fd, pairs, step = d, prs, st
 		}
@@ -651,4 +657,73 @@ func stubExcluded(p *core.Program, fn *ssa.Function, v ssa.Value, at *ssa.BasicB
 		}
 	}
 	return true
+}
+
+// zmPairsSSA: the (destination slot, source offset) pairs of `b.min[K] = math.Min(b.min[K], flat[i+C])` stores (and
+// the max counterparts) of a Bounds method, read off the SSA form, and the constant the source index is stepped by.
+func zmPairsSSA(fn *ssa.Function) (map[[2]int64]int, int64) {
+	pairs := map[[2]int64]int{}
+	step := int64(-1)
+	if len(fn.Params) == 0 {
+		return pairs, step
+	}
+	isFlatParam := func(v ssa.Value) bool {
+		prm, ok := v.(*ssa.Parameter)
+		return ok && isFloatSlice(prm.Type())
+	}
+	for _, b := range fn.Blocks {
+		for _, in := range b.Instrs {
+			st, ok := in.(*ssa.Store)
+			if !ok {
+				continue
+			}
+			ia, ok := st.Addr.(*ssa.IndexAddr)
+			if !ok {
+				continue
+			}
+			k, isK := eng.ConstInt(ia.Index)
+			if !isK {
+				continue
+			}
+			if base, path, isF := fieldLoad(ia.X); !isF || base != ssa.Value(fn.Params[0]) || !(strings.HasSuffix(path, ".min") || strings.HasSuffix(path, ".max")) {
+				continue
+			}
+			call, ok := st.Val.(*ssa.Call)
+			if !ok || !(eng.IsCallTo(call, "math", "Min") || eng.IsCallTo(call, "math", "Max")) {
+				continue
+			}
+			for _, a := range call.Call.Args {
+				ld, ok := a.(*ssa.UnOp)
+				if !ok || ld.Op != token.MUL {
+					continue
+				}
+				sa, ok := ld.X.(*ssa.IndexAddr)
+				if !ok || !isFlatParam(sa.X) {
+					continue
+				}
+				var iv ssa.Value
+				c := int64(0)
+				if bo, isBo := sa.Index.(*ssa.BinOp); isBo && bo.Op == token.ADD {
+					if cc, isC := eng.ConstInt(bo.Y); isC {
+						iv, c = bo.X, cc
+					}
+				} else {
+					iv = sa.Index
+				}
+				phi, isPhi := iv.(*ssa.Phi)
+				if !isPhi {
+					continue
+				}
+				pairs[[2]int64{k, c}]++
+				for _, e := range phi.Edges {
+					if inc, isInc := e.(*ssa.BinOp); isInc && inc.Op == token.ADD && inc.X == ssa.Value(phi) {
+						if sc, isC := eng.ConstInt(inc.Y); isC {
+							step = sc
+						}
+					}
+				}
+			}
+		}
+	}
+	return pairs, step
 }
